@@ -1,5 +1,9 @@
 (* C15/Properties.v -- pinned statements of property C15. *)
 From Sophia.C15 Require Import Model Proofs.
+From Sophia.Common Require Import Term.
+From Sophia.C03 Require Import Model.
+From Sophia.C15 Require Import Generic GenericProofs ParserSource ParserProofs
+  SerializerSink SerializerProofs EndToEnd EndToEndProofs.
 
 (* refinement of the adapter stack (any depth) to "filter_map, stop at the first fault" *)
 Check (try_for_each_spec : forall St src chain (f : sink St) st,
@@ -75,3 +79,314 @@ Print Assumptions fm_filter.
 Print Assumptions fm_map.
 Print Assumptions drain_all.
 Print Assumptions insert_all_count.
+
+(* ================================================================================================ *)
+(*  The concrete ends: Rio N-Triples / N-Quads line parser as source, Nt/Nq serializer as consumer   *)
+(* ================================================================================================ *)
+
+(* ---- the pipeline for any item / error types; Model.v is its instance N ---- *)
+Check (generic_is_model_each : forall St src chain (f : sink St) st,
+  gtry_for_each src (map gad chain) f st
+  = (let '(rest, st', o) := try_for_each St src chain f st in (rest, st', gout o))).
+Check (generic_is_model_some : forall St src chain (f : sink St) st,
+  gtry_for_some src (map gad chain) f st
+  = (let '(rest, st', o) := try_for_some St src chain f st in (rest, st', gout o))).
+Check (generic_is_model_through : forall chain x, gthrough (map gad chain) x = through chain x).
+Check (rec_sink_is_pred : forall fault y st,
+  rec_sink fault y st
+  = pred_sink (fun st _ => match fault with
+                           | Some (j, e) => if Nat.eqb (length st) j then Some e else None
+                           | None => None
+                           end) y st).
+(* every consumer f, every consumer state: "f survives the image of the prefix" is the only hypothesis *)
+Check (@g_source_fault : forall A ES EK St chain (f : gsink A EK St) steps last (e : ES) post st st',
+  gfeed f (gfm chain (concat steps ++ last)) st = (st', None) ->
+  gtry_for_each (gclean steps ++ (last, Some e) :: post) chain f st = (post, st', GSourceError e)).
+Check (@g_sink_fault : forall A ES EK St chain (f : gsink A EK St) steps pre x y rest_of_batch
+    (oe : option ES) post e st st1 st2,
+  gfeed f (gfm chain (concat steps ++ pre)) st = (st1, None) ->
+  gthrough chain x = Some y ->
+  f y st1 = (st2, Some e) ->
+  gtry_for_each (gclean steps ++ (pre ++ x :: rest_of_batch, oe) :: post) chain f st
+  = (post, st2, GSinkError e)).
+Check (@g_no_fault : forall A ES EK St chain (f : gsink A EK St) steps st st',
+  gfeed f (gfm chain (concat steps)) st = (st', None) ->
+  gtry_for_each (ES := ES) (gclean steps) chain f st = ([], st', GDone)).
+Check (@gstepwise_is_try_for_each : forall A ES EK St (src : gsource A ES) chain (f : gsink A EK St) st fuel,
+  (length src < fuel)%nat -> gstepwise fuel src chain f st = gtry_for_each src chain f st).
+(* the recording consumer with an ARBITRARY failure predicate *)
+Check (@pred_sink_quiet : forall A EK (fail : list A -> A -> option EK) ys st,
+  quiet fail st ys -> gfeed (pred_sink fail) ys st = (st ++ ys, None)).
+(* insert_all counts the NEW elements (any item type with decidable equality) *)
+Check (@g_insert_count : forall A EK (eqb : A -> A -> bool),
+  (forall x y, eqb x y = true <-> x = y) ->
+  forall ys s c, NoDup s ->
+  exists s' c',
+    gfeed (ginsert_sink (EK := EK) eqb) ys (s, c) = ((s', c'), None)
+    /\ NoDup s' /\ (c' = c + (length s' - length s))%nat /\ (length s <= length s')%nat
+    /\ (forall x, In x s' <-> In x s \/ In x ys)).
+
+(* ---- the line parser: for EVERY line reader parse_line ---- *)
+(* every text is LF-terminated LF-free lines plus an LF-free rest; either all lines are readable
+   or there is a first unreadable one: the case split of (a)/(c) below is exhaustive *)
+Check (split_doc_spec : forall t,
+  let '(ls, tl) := split_doc t in
+  t = unlines ls ++ tl /\ forallb no_lf ls = true /\ no_lf tl = true).
+Check (@lines_first_bad : forall A (parse_line : list N -> option (option A)) ls,
+  lines_ok parse_line ls = true \/
+  exists pre bad post, ls = pre ++ bad :: post /\ lines_ok parse_line pre = true /\ parse_line bad = None).
+(* the unbounded Rust loop: the model's fuel is never exhausted *)
+Check (@rio_never_out_of_fuel : forall A (parse_line : list N -> option (option A)) EK St chain
+    (f : gsink A EK St) fuel (s : pstate) k,
+  (length (fst s) < fuel)%nat -> snd (rio_try_for_each parse_line fuel s chain f k) <> GMore).
+(* refinement, no hypothesis about faults: the parser driven through try_for_each_item behaves as
+   the abstract source with one step per line; it has read exactly as many lines as steps were made *)
+Check (@rio_refines : forall A (parse_line : list N -> option (option A)) EK St chain
+    (f : gsink A EK St) ls tail fuel n k,
+  forallb no_lf ls = true -> no_lf tail = true ->
+  (S (length (all_lines ls tail)) < fuel)%nat ->
+  let '(rest, k', o) := gtry_for_each (abs_lines parse_line n (all_lines ls tail)) chain f k in
+  let m := (length (all_lines ls tail) - length rest)%nat in
+  rio_try_for_each parse_line fuel (unlines ls ++ tail, n) chain f k
+  = ((drop_lines m ls tail, n + N.of_nat m), k', o)).
+(* (a) first unreadable line *)
+Check (@parser_source_fault : forall A (parse_line : list N -> option (option A)) EK St chain
+    (f : gsink A EK St) pre t bad post fuel n k k',
+  forallb no_lf pre = true -> lines_ok parse_line pre = true ->
+  t <> [] -> cut_line t = (bad, post) -> parse_line bad = None ->
+  gfeed f (gfm chain (stmts parse_line pre)) k = (k', None) ->
+  (length pre < fuel)%nat ->
+  rio_try_for_each parse_line fuel (unlines pre ++ t, n) chain f k
+  = ((post, n + N.of_nat (length pre) + 1), k', GSourceError (n + N.of_nat (length pre)))).
+(* (b) the consumer fails on the image of the statement of line l; `post` is not parsed *)
+Check (@parser_sink_fault : forall A (parse_line : list N -> option (option A)) EK St chain
+    (f : gsink A EK St) pre t l post x y e fuel n k k1 k2,
+  forallb no_lf pre = true -> lines_ok parse_line pre = true ->
+  t <> [] -> cut_line t = (l, post) -> parse_line l = Some (Some x) ->
+  gthrough chain x = Some y ->
+  gfeed f (gfm chain (stmts parse_line pre)) k = (k1, None) ->
+  f y k1 = (k2, Some e) ->
+  (length pre < fuel)%nat ->
+  rio_try_for_each parse_line fuel (unlines pre ++ t, n) chain f k
+  = ((post, n + N.of_nat (length pre) + 1), k2, GSinkError e)).
+(* (c) no fault *)
+Check (@parser_no_fault : forall A (parse_line : list N -> option (option A)) EK St chain
+    (f : gsink A EK St) ls tail fuel n k k',
+  forallb no_lf ls = true -> no_lf tail = true -> lines_ok parse_line (all_lines ls tail) = true ->
+  gfeed f (gfm chain (stmts parse_line (all_lines ls tail))) k = (k', None) ->
+  (length (all_lines ls tail) < fuel)%nat ->
+  rio_try_for_each parse_line fuel (unlines ls ++ tail, n) chain f k
+  = (([], n + N.of_nat (length (all_lines ls tail))), k', GDone)).
+
+(* ---- whole documents (the reader starts on a synthetic empty line 0), recording consumer with an
+   arbitrary failure predicate; line numbers are those of the TurtleError position ---- *)
+Check (@doc_rec_source_fault : forall A (parse_line : list N -> option (option A)),
+  parse_line [] = Some None ->
+  forall EK (fail : list A -> A -> option EK) chain pre t bad post doc st,
+  doc = unlines pre ++ t ->
+  forallb no_lf pre = true -> lines_ok parse_line pre = true ->
+  t <> [] -> cut_line t = (bad, post) -> parse_line bad = None ->
+  quiet fail st (gfm chain (stmts parse_line pre)) ->
+  rio_run parse_line doc chain (pred_sink fail) st
+  = ((post, N.of_nat (length pre) + 2), st ++ gfm chain (stmts parse_line pre),
+     GSourceError (N.of_nat (length pre) + 1))).
+Check (@doc_rec_sink_fault : forall A (parse_line : list N -> option (option A)),
+  parse_line [] = Some None ->
+  forall EK (fail : list A -> A -> option EK) chain pre t l post x y e doc st,
+  doc = unlines pre ++ t ->
+  forallb no_lf pre = true -> lines_ok parse_line pre = true ->
+  t <> [] -> cut_line t = (l, post) -> parse_line l = Some (Some x) ->
+  gthrough chain x = Some y ->
+  quiet fail st (gfm chain (stmts parse_line pre)) ->
+  fail (st ++ gfm chain (stmts parse_line pre)) y = Some e ->
+  rio_run parse_line doc chain (pred_sink fail) st
+  = ((post, N.of_nat (length pre) + 2), st ++ gfm chain (stmts parse_line pre) ++ [y], GSinkError e)).
+Check (@doc_rec_no_fault : forall A (parse_line : list N -> option (option A)),
+  parse_line [] = Some None ->
+  forall EK (fail : list A -> A -> option EK) chain ls tail doc st,
+  doc = unlines ls ++ tail ->
+  forallb no_lf ls = true -> no_lf tail = true -> lines_ok parse_line (all_lines ls tail) = true ->
+  quiet fail st (gfm chain (stmts parse_line (all_lines ls tail))) ->
+  rio_run parse_line doc chain (pred_sink fail) st
+  = (([], N.of_nat (length (all_lines ls tail)) + 1),
+     st ++ gfm chain (stmts parse_line (all_lines ls tail)), GDone)).
+Check (@doc_insert_count : forall A (parse_line : list N -> option (option A)),
+  parse_line [] = Some None ->
+  forall (eqb : A -> A -> bool) EK chain ls tail doc s c,
+  (forall x y, eqb x y = true <-> x = y) ->
+  doc = unlines ls ++ tail ->
+  forallb no_lf ls = true -> no_lf tail = true -> lines_ok parse_line (all_lines ls tail) = true ->
+  NoDup s ->
+  exists s' c',
+    rio_run parse_line doc chain (ginsert_sink (EK := EK) eqb) (s, c)
+    = (([], N.of_nat (length (all_lines ls tail)) + 1), (s', c'), GDone)
+    /\ NoDup s' /\ (c' = c + (length s' - length s))%nat
+    /\ (forall x, In x s' <-> In x s \/ In x (gfm chain (stmts parse_line (all_lines ls tail))))).
+Check (quad_eqx_eq : forall a b : quad, quad_eqx a b = true <-> a = b).
+
+(* ---- the serializers as consumers over a failing io::Write ---- *)
+(* the buffers handed to write_all, concatenated, are the bytes of C03's writer *)
+Check (term_chunks_concat : forall t, concat (term_chunks t) = write_term t).
+Check (stmt_chunks_concat : forall q, concat (stmt_chunks q) = nq_write_quad q).
+(* ANY writer (any policy: short writes, Ok(0), errors at any call) *)
+Check (ser_statement : forall pol q w,
+  let '(w', oe) := ser_sink pol q w in op_ok w w' (nq_write_quad q) oe).
+Check (ser_prefix : forall pol qs w,
+  let '(w', oe) := gfeed (ser_sink pol) qs w in
+  match oe with
+  | None => w_acc w' = w_acc w ++ nq_write qs
+  | Some _ =>
+      exists done q rest k,
+        qs = done ++ q :: rest /\ (k < length (nq_write_quad q))%nat
+        /\ w_acc w' = w_acc w ++ nq_write done ++ firstn k (nq_write_quad q)
+  end
+  /\ (w_failed w = false -> w_after w' = w_after w /\ (oe = None -> w_failed w' = false))).
+(* the byte-budget writer: exactly the first b bytes, failure iff the serialisation is longer *)
+Check (ser_budget : forall b cap code, (1 <= cap)%nat -> forall qs w,
+  (length (w_acc w) <= b)%nat ->
+  let '(w', oe) := gfeed (ser_sink (budget_pol b cap code)) qs w in
+  w_acc w' = firstn b (w_acc w ++ nq_write qs)
+  /\ oe = over b code (length (w_acc w) + length (nq_write qs))).
+
+(* ---- parser -> adapters -> serializer ---- *)
+Check (e2e_writer_fault : forall parse_line, parse_line [] = Some None ->
+  forall pol chain pre t l post x y e doc w1 w2,
+  doc = unlines pre ++ t ->
+  forallb no_lf pre = true -> lines_ok parse_line pre = true ->
+  t <> [] -> cut_line t = (l, post) -> parse_line l = Some (Some x) ->
+  gthrough chain x = Some y ->
+  gfeed (ser_sink pol) (gfm chain (stmts parse_line pre)) w0 = (w1, None) ->
+  ser_sink pol y w1 = (w2, Some e) ->
+  rio_run parse_line doc chain (ser_sink pol) w0
+  = ((post, N.of_nat (length pre) + 2), w2, GSinkError e)
+  /\ (exists k, (k < length (nq_write_quad y))%nat
+        /\ w_acc w2 = nq_write (gfm chain (stmts parse_line pre)) ++ firstn k (nq_write_quad y))
+  /\ w_after w2 = O).
+Check (e2e_writer_no_fault : forall parse_line, parse_line [] = Some None ->
+  forall pol chain ls tail doc w',
+  doc = unlines ls ++ tail ->
+  forallb no_lf ls = true -> no_lf tail = true -> lines_ok parse_line (all_lines ls tail) = true ->
+  gfeed (ser_sink pol) (gfm chain (stmts parse_line (all_lines ls tail))) w0 = (w', None) ->
+  rio_run parse_line doc chain (ser_sink pol) w0
+  = (([], N.of_nat (length (all_lines ls tail)) + 1), w', GDone)
+  /\ w_acc w' = nq_write (gfm chain (stmts parse_line (all_lines ls tail))) /\ w_after w' = O).
+Check (e2e_budget_sink_fault : forall parse_line, parse_line [] = Some None ->
+  forall b cap code, (1 <= cap)%nat ->
+  forall chain pre t l post x y doc,
+  doc = unlines pre ++ t ->
+  forallb no_lf pre = true -> lines_ok parse_line pre = true ->
+  t <> [] -> cut_line t = (l, post) -> parse_line l = Some (Some x) ->
+  gthrough chain x = Some y ->
+  (length (nq_write (gfm chain (stmts parse_line pre))) <= b)%nat ->
+  (b < length (nq_write (gfm chain (stmts parse_line pre))) + length (nq_write_quad y))%nat ->
+  exists w2,
+    rio_run parse_line doc chain (ser_sink (budget_pol b cap code)) w0
+    = ((post, N.of_nat (length pre) + 2), w2, GSinkError (EDev code))
+    /\ w_acc w2 = firstn b (nq_write (gfm chain (stmts parse_line pre) ++ [y]))
+    /\ w_after w2 = O).
+Check (e2e_budget_source_fault : forall parse_line, parse_line [] = Some None ->
+  forall b cap code, (1 <= cap)%nat ->
+  forall chain pre t bad post doc,
+  doc = unlines pre ++ t ->
+  forallb no_lf pre = true -> lines_ok parse_line pre = true ->
+  t <> [] -> cut_line t = (bad, post) -> parse_line bad = None ->
+  (length (nq_write (gfm chain (stmts parse_line pre))) <= b)%nat ->
+  exists w1,
+    rio_run parse_line doc chain (ser_sink (budget_pol b cap code)) w0
+    = ((post, N.of_nat (length pre) + 2), w1, GSourceError (N.of_nat (length pre) + 1))
+    /\ w_acc w1 = nq_write (gfm chain (stmts parse_line pre)) /\ w_after w1 = O).
+Check (e2e_budget_no_fault : forall parse_line, parse_line [] = Some None ->
+  forall b cap code, (1 <= cap)%nat ->
+  forall chain ls tail doc,
+  doc = unlines ls ++ tail ->
+  forallb no_lf ls = true -> no_lf tail = true -> lines_ok parse_line (all_lines ls tail) = true ->
+  (length (nq_write (gfm chain (stmts parse_line (all_lines ls tail)))) <= b)%nat ->
+  exists w1,
+    rio_run parse_line doc chain (ser_sink (budget_pol b cap code)) w0
+    = (([], N.of_nat (length (all_lines ls tail)) + 1), w1, GDone)
+    /\ w_acc w1 = nq_write (gfm chain (stmts parse_line (all_lines ls tail))) /\ w_after w1 = O).
+
+(* ---- non-vacuity ---- *)
+(* <a:s> <a:p> "x" .      oops      <a:s> <a:p> <a:o> <a:g> . *)
+Definition ex_l1 : str := [60;97;58;115;62;32;60;97;58;112;62;32;34;120;34;32;46].
+Definition ex_l2 : str := [111;111;112;115].
+Definition ex_l3 : str := [60;97;58;115;62;32;60;97;58;112;62;32;60;97;58;111;62;32;60;97;58;103;62;32;46].
+Definition ex_q1 : quad := (Iri [97;58;115], Iri [97;58;112], LitDt [120] xsd_string, None).
+Definition ex_q3 : quad := (Iri [97;58;115], Iri [97;58;112], Iri [97;58;111], Some (Iri [97;58;103])).
+Example ex_readers :
+  nq_parse_line [] = Some None /\ nt_parse_line [] = Some None
+  /\ nq_parse_line ex_l1 = Some (Some ex_q1) /\ nq_parse_line ex_l2 = None
+  /\ nq_parse_line ex_l3 = Some (Some ex_q3) /\ nt_parse_line ex_l3 = None
+  /\ nq_parse_line [32; 35; 120] = Some None.
+Proof. vm_compute. repeat split; reflexivity. Qed.
+(* a 3-line document with an error on line 2: hypotheses of (a) hold, line 3 is left unread *)
+Definition ex_doc3 : str := unlines [ex_l1; ex_l2; ex_l3].
+Example ex_line2_error :
+  rio_run nq_parse_line ex_doc3 [] (pred_sink (fun _ _ => @None N)) []
+  = ((ex_l3 ++ [10], 3), [ex_q1], GSourceError 2).
+Proof.
+  apply (doc_rec_source_fault nq_parse_line nq_blank (fun _ _ => @None N) [] [ex_l1] (unlines [ex_l2; ex_l3]) ex_l2
+           (ex_l3 ++ [10]) ex_doc3 []); try reflexivity.
+  - discriminate.
+  - simpl. auto.
+Qed.
+Example ex_line2_error_computed :
+  run_parse_rec true ex_doc3 [QMapId] None = ([ex_q1], PSource 2, [inl ex_q3]).
+Proof. vm_compute. reflexivity. Qed.
+(* a consumer failing on its 2nd item, through a chain that drops the graph name *)
+Example ex_sink_fault_item2 :
+  run_parse_rec true (unlines [ex_l1; ex_l3; ex_l1]) [QMapDropGraph] (Some (1%nat, 5))
+  = ([ex_q1; (Iri [97;58;115], Iri [97;58;112], Iri [97;58;111], None)], PSink 5, [inl ex_q1]).
+Proof. vm_compute. reflexivity. Qed.
+(* a budget that ends inside statement 2 (statement 1 is 17 bytes long) *)
+Example ex_budget_inside_statement_2 :
+  exists w2,
+    rio_run nq_parse_line (unlines [ex_l1; ex_l3]) [] (ser_sink (budget_pol 25 4 77)) w0
+    = (([], 3), w2, GSinkError (EDev 77))
+    /\ w_acc w2 = firstn 25 (nq_write [ex_q1; ex_q3]) /\ w_after w2 = O.
+Proof.
+  apply (e2e_budget_sink_fault nq_parse_line nq_blank 25 4 77 ltac:(repeat constructor) [] [ex_l1] (ex_l3 ++ [10]) ex_l3 []
+           ex_q3 ex_q3 (unlines [ex_l1; ex_l3])); try reflexivity.
+  - discriminate.
+  - vm_compute. repeat constructor.
+  - vm_compute. repeat constructor.
+Qed.
+Example ex_budget_computed :
+  run_parse_ser true (unlines [ex_l1; ex_l3]) [] false (WBudget 25 4 77)
+  = (firstn 25 (nq_write [ex_q1; ex_q3]), 19%nat, 0%nat, SSinkDev 77, []).
+Proof. vm_compute. reflexivity. Qed.
+
+Print Assumptions generic_is_model_each.
+Print Assumptions generic_is_model_some.
+Print Assumptions generic_is_model_through.
+Print Assumptions rec_sink_is_pred.
+Print Assumptions g_source_fault.
+Print Assumptions g_sink_fault.
+Print Assumptions g_no_fault.
+Print Assumptions gstepwise_is_try_for_each.
+Print Assumptions pred_sink_quiet.
+Print Assumptions g_insert_count.
+Print Assumptions split_doc_spec.
+Print Assumptions lines_first_bad.
+Print Assumptions rio_never_out_of_fuel.
+Print Assumptions rio_refines.
+Print Assumptions parser_source_fault.
+Print Assumptions parser_sink_fault.
+Print Assumptions parser_no_fault.
+Print Assumptions doc_rec_source_fault.
+Print Assumptions doc_rec_sink_fault.
+Print Assumptions doc_rec_no_fault.
+Print Assumptions doc_insert_count.
+Print Assumptions quad_eqx_eq.
+Print Assumptions term_chunks_concat.
+Print Assumptions stmt_chunks_concat.
+Print Assumptions ser_statement.
+Print Assumptions ser_prefix.
+Print Assumptions ser_budget.
+Print Assumptions e2e_writer_fault.
+Print Assumptions e2e_writer_no_fault.
+Print Assumptions e2e_budget_sink_fault.
+Print Assumptions e2e_budget_source_fault.
+Print Assumptions e2e_budget_no_fault.
+Print Assumptions ex_line2_error.
+Print Assumptions ex_budget_inside_statement_2.
